@@ -282,11 +282,19 @@ func famPfResp(o *Out, r *RNG, thorough bool) {
 // ---- scope ---------------------------------------------------------------------------------------------
 
 type hier struct {
+	slash     bool // the handler's Prefix is spelled with a trailing slash
 	prefix    string
 	principal string
 	homeSet   string
 	colls     []string
 	objs      map[string][]string
+}
+
+func (h hier) handlerPrefix() string {
+	if h.slash {
+		return h.prefix + "/"
+	}
+	return h.prefix
 }
 
 func (h hier) sx() string {
@@ -370,7 +378,7 @@ func emitScope(o *Out, server string, h hier, level, path, depth, form string) {
 				b.objects[c] = append(b.objects[c], caldav.CalendarObject{Path: ob, ETag: "e", Data: simpleCal("u", "s")})
 			}
 		}
-		handler = &caldav.Handler{Backend: b, Prefix: h.prefix}
+		handler = &caldav.Handler{Backend: b, Prefix: h.handlerPrefix()}
 	case "carddav":
 		b := &cardBackend{principal: h.principal, homeSet: h.homeSet, objects: map[string][]carddav.AddressObject{}}
 		for _, c := range h.colls {
@@ -379,7 +387,7 @@ func emitScope(o *Out, server string, h hier, level, path, depth, form string) {
 				b.objects[c] = append(b.objects[c], carddav.AddressObject{Path: ob, ETag: "e", Card: simpleCard("x")})
 			}
 		}
-		handler = &carddav.Handler{Backend: b, Prefix: h.prefix}
+		handler = &carddav.Handler{Backend: b, Prefix: h.handlerPrefix()}
 	case "principal":
 		handler = http.HandlerFunc(func(w http.ResponseWriter, r *http.Request) {
 			webdav.ServePrincipal(w, r, &webdav.ServePrincipalOptions{CurrentUserPrincipalPath: h.principal,
@@ -463,8 +471,9 @@ func famPfScope(o *Out, r *RNG, thorough bool) {
 	for i := 0; i < 200; i++ {
 		emitPrincipalProps(o, r)
 	}
-	for _, prefix := range []string{"", "/dav", "/a/b"} {
-		h := hier{prefix: prefix, principal: prefix + "/u/", homeSet: prefix + "/u/cal/",
+	for _, spelled := range []string{"", "/dav", "/a/b", "/", "/dav/", "/a/b/", "/s/d/v/"} {
+		prefix := strings.TrimSuffix(spelled, "/")
+		h := hier{slash: strings.HasSuffix(spelled, "/"), prefix: prefix, principal: prefix + "/u/", homeSet: prefix + "/u/cal/",
 			colls: []string{prefix + "/u/cal/one/", prefix + "/u/cal/two/", prefix + "/u/cal/empty/"},
 			objs:  map[string][]string{prefix + "/u/cal/one/": {prefix + "/u/cal/one/a.ics", prefix + "/u/cal/one/b c.ics"}, prefix + "/u/cal/two/": {prefix + "/u/cal/two/z.ics"}}}
 		targets := []struct{ level, path string }{
